@@ -75,13 +75,13 @@ Definition side_conditions (op : bytes) (args : list bytes) : Prop :=
   (beqb op (bs "maximize") || beqb op (bs "minimize") = true ->
    wf_triple (opt_arg (arg_n 0 args)) (opt_arg (arg_n 1 args)) (opt_arg (arg_n 2 args)) = true)
   /\ (beqb op (bs "table_row") || beqb op (bs "table_len") = true -> In (arg_n 0 args) known_tables)
-  /\ beqb op (bs "loc_meta") = false /\ beqb op (bs "li_meta") = false.
+  /\ beqb op (bs "loc_meta") = false /\ beqb op (bs "li_meta") = false /\ beqb op (bs "ext_meta") = false.
 
 Theorem oracle_sound prop op args :
   side_conditions op args -> spec_for_property prop op args (oracle_model op args) = None ->
   passes (oracle_spec prop op args (oracle_model op args)).
 Proof.
-  intros (WF & KT & M1 & M2) V. unfold oracle_spec. rewrite V. unfold oracle_model.
+  intros (WF & KT & M1 & M2 & M3) V. unfold oracle_spec. rewrite V. unfold oracle_model.
   destruct (oracle_model_subtags op args) as [r|] eqn:G.
   { pose proof (subtags_sound op args r G) as P. destruct (oracle_spec_subtags op args r); [exact P|]. rewrite (disj_subtags_likely op args r _ G), (disj_subtags_langid op args r _ G), (disj_subtags_locale op args r _ G), (disj_subtags_serde op args r _ G), (disj_subtags_macros op args r _ G). exact I. }
   rewrite (subtags_none op args _ G). clear G.
@@ -92,7 +92,7 @@ Proof.
   { pose proof (langid_sound op args r G) as P. destruct (oracle_spec_langid op args r); [exact P|]. rewrite (disj_langid_locale op args r _ G), (disj_langid_serde op args r _ G), (disj_langid_macros op args r _ G). exact I. }
   rewrite (langid_none op args _ G). clear G.
   destruct (oracle_model_locale op args) as [r|] eqn:G.
-  { pose proof (locale_group_sound op args r G M1 M2) as P. destruct (oracle_spec_locale op args r); [exact P|]. rewrite (disj_locale_serde op args r _ G), (disj_locale_macros op args r _ G). exact I. }
+  { pose proof (locale_group_sound op args r G M1 M2 M3) as P. destruct (oracle_spec_locale op args r); [exact P|]. rewrite (disj_locale_serde op args r _ G), (disj_locale_macros op args r _ G). exact I. }
   rewrite (locale_none op args _ G). clear G.
   destruct (oracle_model_serde op args) as [r|] eqn:G.
   { pose proof (serde_sound op args r G) as P. destruct (oracle_spec_serde op args r); [exact P|]. rewrite (disj_serde_macros op args r _ G). exact I. }
